@@ -103,7 +103,10 @@ pub fn c20_route() {
     // buffer
     let mut t = vh::VPrintTarget::new_sink();
     assert!(t.kind() == 4);
-    assert!(t.get_print_buffer().is_err(), "no_buffer_configured_is_an_error");
+    let r = t.get_print_buffer();
+    let is_err = r.is_err();
+    core::mem::forget(r); // io::Error's bit-packed representation: its drop glue is not tractable
+    assert!(is_err, "no_buffer_configured_is_an_error");
     t.print_to_buffer();
     assert!(t.kind() == 2, "print_to_buffer_switches_target");
     assert!(t.write(&a).ok() == Some(3), "write_reports_all_bytes");
@@ -122,7 +125,10 @@ pub fn c20_route() {
         assert!(STREAM_N == 5, "stream_receives_every_byte");
         assert!(STREAM_BUF[0] == a[0] && STREAM_BUF[2] == a[2] && STREAM_BUF[3] == b[0] && STREAM_BUF[4] == b[1], "stream_receives_identical_bytes_in_order");
     }
-    assert!(s.get_print_buffer().is_err(), "stream_target_has_no_buffer");
+    let r = s.get_print_buffer();
+    let is_err = r.is_err();
+    core::mem::forget(r);
+    assert!(is_err, "stream_target_has_no_buffer");
     // sink
     s.print_to_sink();
     assert!(s.kind() == 4 && s.write(&a).ok() == Some(3), "sink_accepts_everything");
